@@ -25,7 +25,10 @@ def build(ctx):
 def oracle(ctx, n, sub="oracle"):
     d = os.path.join(ctx.rundir, sub)
     os.makedirs(d, exist_ok=True)
-    rc, out = C.sh([os.path.join(C.BIN, "c06"), "oracle", "-out", d, "-n", str(n), "-corpus", os.path.join(C.VERIF, "corpus", "C06")], timeout=3000)
+    args = [os.path.join(C.BIN, "c06"), "oracle", "-out", d, "-n", str(n), "-corpus", os.path.join(C.VERIF, "corpus", "C06")]
+    if ctx.tier == "thorough":
+        args.append("-thorough")
+    rc, out = C.sh(args, timeout=ctx.scale(900, 7200))
     ctx.log("oracle", out[-2000:])
     if rc != 0:
         ctx.diag.append("oracle crashed rc=%d: %s" % (rc, out[-300:]))
@@ -38,7 +41,7 @@ def oracle(ctx, n, sub="oracle"):
 
 def search(ctx, factor):
     before = len(ctx.fails)
-    oracle(ctx, ctx.scale(5000, 60000) * factor, "search")
+    oracle(ctx, ctx.scale(3000, 60000) * factor, "search")
     found = ctx.fails[before:]
     del ctx.fails[before:]
     return found
@@ -87,7 +90,7 @@ def run(ctx):
     # correspondence: model slicers / reader line preparation vs the real code (PANIC / ERR / OK + value)
     d = os.path.join(ctx.rundir, "corr")
     os.makedirs(d, exist_ok=True)
-    rc, out = C.sh([os.path.join(C.BIN, "c06"), "corr", "-out", d, "-random", str(ctx.scale(1500, 20000))], timeout=3000)
+    rc, out = C.sh([os.path.join(C.BIN, "c06"), "corr", "-out", d, "-random", str(ctx.scale(1500, 20000))], timeout=900)
     ctx.log("corr", out[-1000:])
     drv = os.path.join(C.BUILD, "ocaml", "c06", "driver")
     if rc == 0 and os.path.exists(drv):
@@ -97,7 +100,7 @@ def run(ctx):
         ctx.compare("slicers/validators/readLine", os.path.join(d, "model.txt"), os.path.join(d, "impl.txt"), os.path.join(d, "cases.txt"))
     else:
         ctx.diag.append("correspondence could not run: " + out[-300:])
-    summ = oracle(ctx, ctx.scale(5000, 60000))
+    summ = oracle(ctx, ctx.scale(3000, 60000))
     ctx.add_summary(summ, "recover+watchdog oracle")
     if ctx.tier == "thorough":
         fuzz(ctx)
